@@ -151,6 +151,8 @@ func TestVerifDriver(t *testing.T) {
 		res := "bad-op"
 		if len(w) >= 2 && w[0] == "lb" {
 			res = v.op(w[1:])
+		} else if len(w) == 6 && w[0] == "stop" {
+			res = stopScenario(w[1:])
 		} else if len(w) >= 2 && w[0] == "pool" {
 			res = poolOp(w[1:])
 		} else if len(w) == 4 && w[0] == "hash" && w[1] == "jump" {
@@ -425,3 +427,95 @@ func poolOp(w []string) string {
 	}
 	return "bad-op"
 }
+
+// stopScenario: `stop <backends> <probe_ms> <delay_us> <stoppers> <pool 0|1>` — a real balancer
+// with active checks (interval 1s, so the initial fan-out plus at most one tick), probes
+// answered after probe_ms, Stop called delay_us after construction by `stoppers` goroutines
+// at once. Reports whether every Stop returned, how long the slowest took, how many probes
+// arrived after the first Stop had returned, and whether the pool kept a connection.
+func stopScenario(w []string) string {
+	nb, probeMs, delayUs, stoppers := atoi(w[0]), atoi(w[1]), atoi(w[2]), atoi(w[3])
+	var mu sync.Mutex
+	var firstReturn time.Time
+	late := 0
+	be := httptest.NewServer(http.HandlerFunc(func(rw http.ResponseWriter, r *http.Request) {
+		time.Sleep(time.Duration(probeMs) * time.Millisecond)
+	}))
+	defer be.Close()
+	// probes go through http.DefaultTransport (performHealthCheck builds a bare http.Client):
+	// record the instant each probe is handed to the transport, i.e. is being sent
+	orig := http.DefaultTransport
+	http.DefaultTransport = sendRecorder(func(r *http.Request) (*http.Response, error) {
+		mu.Lock()
+		if !firstReturn.IsZero() && r.Context().Err() == nil {
+			late++
+		}
+		mu.Unlock()
+		return orig.RoundTrip(r)
+	})
+	defer func() { http.DefaultTransport = orig }()
+	cfg := &config.Config{}
+	cfg.LoadBalancer.Strategy = "round_robin"
+	for j := 0; j < nb; j++ {
+		cfg.Backends = append(cfg.Backends, config.BackendConfig{Name: fmt.Sprintf("b%d", j), Address: be.URL})
+	}
+	cfg.HealthChecks.Active = config.ActiveHealthCheckConfig{Enabled: true, Interval: 1, Timeout: 1, Path: "/"}
+	if w[4] == "1" {
+		cfg.LoadBalancer.WebSocketPool = config.WebSocketPoolConfig{Enabled: true, MaxIdle: 2, MaxActive: 4, IdleTimeoutSeconds: 60}
+	}
+	lb, err := NewLoadBalancer(cfg)
+	if err != nil {
+		return "stop setup-error"
+	}
+	var pooled *vConn
+	if lb.wsPool != nil {
+		pooled = &vConn{id: 1}
+		lb.wsPool.Put("b0", pooled)
+	}
+	time.Sleep(time.Duration(delayUs) * time.Microsecond)
+	done := make(chan time.Duration, stoppers)
+	crashed := make(chan string, stoppers)
+	for k := 0; k < stoppers; k++ {
+		go func() {
+			defer func() {
+				if r := recover(); r != nil {
+					crashed <- fmt.Sprint(r)
+				}
+			}()
+			t0 := time.Now()
+			lb.Stop()
+			mu.Lock()
+			if firstReturn.IsZero() {
+				firstReturn = time.Now()
+			}
+			mu.Unlock()
+			done <- time.Since(t0)
+		}()
+	}
+	var worst time.Duration
+	for k := 0; k < stoppers; k++ {
+		select {
+		case d := <-done:
+			if d > worst {
+				worst = d
+			}
+		case c := <-crashed:
+			return "stop PANIC " + strings.ReplaceAll(c, " ", "_")
+		case <-time.After(10 * time.Second):
+			return "stop HANG"
+		}
+	}
+	lb.Stop() // a repeated Stop is harmless
+	time.Sleep(time.Duration(2*probeMs+20) * time.Millisecond)
+	mu.Lock()
+	defer mu.Unlock()
+	res := fmt.Sprintf("stop returned within=%v late=%d", worst < 3*time.Second, late)
+	if pooled != nil {
+		res += fmt.Sprintf(" pooledClosed=%v", pooled.closed)
+	}
+	return res
+}
+
+type sendRecorder func(*http.Request) (*http.Response, error)
+
+func (f sendRecorder) RoundTrip(r *http.Request) (*http.Response, error) { return f(r) }
